@@ -65,7 +65,7 @@ CHECKS = {
              "and filter none/whitelist/blacklist, HandleFilterKeyWithCommand's output is compared with a reference rewrite derived from the Redis command "
              "reference (first/last/step). Non-key arguments are named so that they would be filtered if mistaken for keys. Every argument position is also tried as the empty string (as a key it passes a blacklist and fails a whitelist). Every command is also sent in UPPER, lOWER-first and aLtErNaTiNg spelling through the real ParseArgs. "
              "Second part (incremental path): every well-formed command stream up to length 3 (thorough: 4) over ten symbols (passing, failing and mixed-key commands, FLUSHALL in two spellings, MULTI, EXEC) "
-             "x key filter none/whitelist/blacklist runs through the real parser, sender and receiver against the in-memory target; the commands the target applies must be, in order, what the rewrite function returns for each command on its own (a decision never depends on the neighbouring commands; a command that is not key-addressed is never dropped). Commands of variable arity are also sent with 63, 64, 65, 66, 129 and 257 key groups under six pass patterns (all, none, only the last, only the first, every third fails, only keys from the 65th on).",
+             "x key filter none/whitelist/blacklist runs through the real parser, sender and receiver against the in-memory target; the commands the target applies must be, in order, what the rewrite function returns for each command on its own (a decision never depends on the neighbouring commands; a command that is not key-addressed is never dropped). Commands of variable arity are also sent with 63, 64, 65, 66, 129 and 257 key groups under six pass patterns (all, none, only the last, only the first, every third fails, only keys from the 65th on). The incremental-path alphabet also holds SELECT 1 and PING, and every applied command is attributed to its database.",
         note="trusts the transcription of Redis' key positions in harness/filter/c13_test.go; commands added to the tool's table that the reference does not know are reported as notes, not judged",
         rule="case = (command, argument shape, pass mask, filter config); all distinct; states = distinct cases, transitions = calls; non-trivial = all (each is compared with the reference rewrite)",
         parts=[dict(pkg="./redis-shake/filter", harness=["filter"], test="^TestVerif_C13$", race=True, race_test="^TestVerif_C13Race$", race_shards=1, shards=1, budget=dict(quick=60, thorough=60)),
@@ -143,7 +143,7 @@ CHECKS = {
              "databases and a foreign value under the checkpoint name. The real LoadCheckpoint (real redigo client, dial hook) runs on every distinct state. "
              "Oracle: a set-valued reference (any database holding the maximal offset of OUR source is acceptable, because the scan order is a Go map order), "
              "its run id and database or unknown/no database, -1 when none, refusal when that checkpoint's version is too old; afterwards foreign fields and the "
-             "chosen database untouched and our stale fields removed elsewhere. Third part (TestVerif_C14R): whole DbSyncer.Sync() runs against three model source nodes and a model target. A fresh run stores its checkpoint; a restarted process has its first 0, 1 or 2 PSYNCs refused (-NOMASTERLINK), which starts Sync() again on the same object; standalone sources and cluster sources with three slot ranges. Every PSYNC must ask for the continuation of the stored checkpoint (run id, offset+1), no further checkpoint key may appear on the target, the stored offset ends at the end of the stream and the counter incremented before and after the restart is 2. Every state reachable with at most two writes is also evaluated with one lookup command (EXISTS or HGETALL) refused with -LOADING in one database: the load must then report an error, never go on with what it saw elsewhere.",
+             "chosen database untouched and our stale fields removed elsewhere. Third part (TestVerif_C14R): whole DbSyncer.Sync() runs against three model source nodes and a model target. A fresh run stores its checkpoint; a restarted process has its first 0, 1 or 2 PSYNCs refused (-NOMASTERLINK), which starts Sync() again on the same object; standalone sources and cluster sources with three slot ranges. Every PSYNC must ask for the continuation of the stored checkpoint (run id, offset+1), no further checkpoint key may appear on the target, the stored offset ends at the end of the stream and the counter incremented before and after the restart is 2. Every state reachable with at most two writes is also evaluated with one lookup command (EXISTS or HGETALL) refused with -LOADING in one database: the load must then report an error, never go on with what it saw elsewhere. The restart part also runs shards that own a single slot and checks that the key the checkpoint is stored under hashes into the shard's slot range.",
         note="trusts mredis (HGETALL/HDEL/EXISTS/INFO keyspace) and redigo; the reference function is a direct transcription of the statement",
         rule="state = canonical target keyspace (per database: checkpoint fields, data flag); transition = one write applied to the model state; every distinct state is evaluated once on the real code; non-trivial = the state holds at least one checkpoint field or foreign value (outcome other than 'none')",
         parts=[dict(pkg="./redis-shake/checkpoint", harness=["checkpoint"], test="^TestVerif_C14$", shards=16, budget=dict(quick=60, thorough=900)),
@@ -274,7 +274,7 @@ CHECKS = {
              "workers and how their SELECT/RESTORE traffic interleaves. RDB files (written by rdbgen) spread keys over databases in several orders, with Lua scripts; "
              "configurations cover target.db, db and key filters, filter.lua, key_exists policies with a pre-existing key, and an injected error reply on the j-th "
              "RESTORE. Oracle at return: every passing key restored exactly once, in its own (or the fixed) database, with its value; filtered keys never; every "
-             "script loaded unless filter.lua; a failed restore or a busy key under key_exists=none must surface as an error or abort, never as a clean return. Retry scenarios start the run again on the same syncer object after the injected failure was reported (as DbSyncer.Sync does) against an emptied target: the second run must restore everything.",
+             "script loaded unless filter.lua; a failed restore or a busy key under key_exists=none must surface as an error or abort, never as a clean return. Retry scenarios start the run again on the same syncer object after the injected failure was reported (as DbSyncer.Sync does) against an emptied target: the second run must restore everything. Half of the whole-sync scenarios configure sock.file_name / sock.file_size (a file-backed buffer between source link and parser).",
         note="grant orders are explored with a bound on deviations from first-come-first-served (stated in the evidence); which worker dequeues the next entry is left to the Go runtime within one quiescent step (GOMAXPROCS=1, replay checked); a free-running -race pass covers unsynchronised accesses",
         rule="execution = (scenario, grant order); states = distinct grant orders per scenario; transitions = grants; non-trivial = scenarios with more than one worker",
         parts=[dict(pkg="./redis-shake/dbSync", harness=["dbsync"], test="^TestVerif_C07$", race=True, race_test="^TestVerif_C07Race$", race_shards=4, shards=16, gomaxprocs=1, budget=dict(quick=75, thorough=1200)),
@@ -325,7 +325,7 @@ CHECKS = {
              "case, the checkpoint key and near misses of it, a key named lua) in each of the databases {0,1,2,10,11}: an RDB through the real syncRDBFile and "
              "restoreRDBFile (2 workers), a command stream with SELECTs, script commands in mixed case, OPINFO and a sentinel hello through the real parser and sender, "
              "a model source through the real rump executor. The set of (db,key) pairs that reached the model target must equal the reference predicate for that path; "
-             "Lua scripts / script commands pass exactly when filter.lua is off; OPINFO and sentinel hellos never arrive. The predicates are also compared directly. The incremental path is additionally crossed with target.db in {-1, every source database (filtered ones too), an unused one}; every SET carries its source database in its value, databases are re-selected in reverse order, and per (db,key) the number of forwarded SETs must equal the number sent. The full-sync, restore and rump paths are crossed with the same target.db values: every value carries a marker of its source database and the (db,key) decisions are read from the command log of the model target. Rump is also run with scan.special_cloud=tencent_cluster (one logical database, the database list does not come from INFO keyspace) under every filter configuration.",
+             "Lua scripts / script commands pass exactly when filter.lua is off; OPINFO and sentinel hellos never arrive. The predicates are also compared directly. The incremental path is additionally crossed with target.db in {-1, every source database (filtered ones too), an unused one}; every SET carries its source database in its value, databases are re-selected in reverse order, and per (db,key) the number of forwarded SETs must equal the number sent. The full-sync, restore and rump paths are crossed with the same target.db values: every value carries a marker of its source database and the (db,key) decisions are read from the command log of the model target. Rump is also run with scan.special_cloud=tencent_cluster (one logical database, the database list does not come from INFO keyspace) under every filter configuration. The big hashes of the full-phase scenario live in database 3 (the small keys before them in database 0): every key, and every piece of a split hash, must land in its own database.",
         note="key lists and db lists are used one kind at a time per dimension (the tool refuses whitelist and blacklist together for databases); quick crosses key and db lists on a diagonal, thorough fully",
         rule="execution = (path, configuration) carrying len(keys) x len(dbs) independent decisions (counted as transitions); non-trivial = configurations with at least one list set",
         parts=[dict(pkg="./redis-shake/dbSync", harness=["dbsync"], test="^TestVerif_C06$", shards=16, gomaxprocs=2, budget=dict(quick=75, thorough=900)),
